@@ -1113,6 +1113,20 @@ def signature_table(tr=None):
     return tab
 
 
+def signature_table_static():
+    """Parameter layout of every roster function from the decorators alone (no body translation): what the harness
+    needs to call the real kernels when the translation itself fails (stage C must not depend on stage A)."""
+    tr = Translator()
+    tr.load()
+    tab = {}
+    for name in tr.order:
+        fi = tr.funcs[name]
+        params = tr.param_types(fi)
+        tab[fi.name] = dict(module=fi.module, params=[(n, "P" if t == PAIR else t) for n, t in params],
+                            outs=None, single=None, opt=None, has_pre=None)
+    return tab
+
+
 def generate():
     tr = build()
     text, shas = emit(tr)
